@@ -118,6 +118,52 @@ Qed.
 (* layer 1: state primitives                                           *)
 (* ------------------------------------------------------------------ *)
 
+(* the merged header map: lookup *)
+Fixpoint hlookup (k : N) (l : list (N * N)) : option N :=
+  match l with
+  | [] => None
+  | (k', v) :: r => if N.eqb k k' then Some v else hlookup k r
+  end.
+
+(* the value the caller's map gives header k: the last entry for k *)
+Fixpoint caller_value (k : N) (opt : list (N * N)) : option N :=
+  match opt with
+  | [] => None
+  | (k', v) :: r => match caller_value k r with
+                    | Some w => Some w
+                    | None => if N.eqb k k' then Some v else None
+                    end
+  end.
+
+Lemma hlookup_put k v l k' :
+  hlookup k' (put_hdr k v l) = if N.eqb k' k then Some v else hlookup k' l.
+Proof.
+  induction l as [|[k1 v1] r IH]; cbn [put_hdr hlookup].
+  - destruct (N.eqb k' k); reflexivity.
+  - destruct (k <? k1) eqn:E1; [cbn [hlookup]; destruct (N.eqb k' k); reflexivity|].
+    destruct (N.eqb k k1) eqn:E2.
+    + apply N.eqb_eq in E2. subst k1. cbn [hlookup]. destruct (N.eqb k' k); reflexivity.
+    + cbn [hlookup]. rewrite IH. destruct (N.eqb k' k1) eqn:E3; [|reflexivity].
+      apply N.eqb_eq in E3. subst k1. destruct (N.eqb k' k) eqn:E4; [|reflexivity].
+      apply N.eqb_eq in E4. subst. rewrite N.eqb_refl in E2. discriminate.
+Qed.
+
+Lemma hlookup_fold k opt : forall acc,
+  hlookup k (fold_left (fun a kv => put_hdr (fst kv) (snd kv) a) opt acc) =
+  match caller_value k opt with Some v => Some v | None => hlookup k acc end.
+Proof.
+  induction opt as [|[k1 v1] r IH]; intro acc; cbn [fold_left caller_value fst snd]; [reflexivity|].
+  rewrite IH. destruct (caller_value k r); [reflexivity|]. rewrite hlookup_put.
+  destruct (N.eqb k k1); reflexivity.
+Qed.
+
+(* the caller's value wins; the two headers suds sets keep suds' value only
+   when the caller's map does not name them *)
+Lemma caller_headers_win_l opt k :
+  hlookup k (soap_headers opt) =
+  match caller_value k opt with Some v => Some v | None => hlookup k hdr_defaults end.
+Proof. apply hlookup_fold. Qed.
+
 Section Refine.
 Variable T : tables.
 Hypothesis TOK : tables_ok T = true.
